@@ -164,17 +164,19 @@ def check_status(ctx) -> None:
 
 
 def run(ctx) -> None:
-    ctx.rule("C06.tasks", "one task per unordered combination; one row per task", floor=3)
+    ctx.rule("C06.tasks", "one task per unordered combination; one row per task", floor=3, hard=0)
     ctx.rule("C06.scope", "T2: every knock-out of a task happens through knock_out() inside the per-task context", floor=6)
     ctx.rule("C06.status", "T6: status read after the solve; NaN default", floor=3)
     ctx.rule("C06.keyed", "T5: unordered pool results are order-free", floor=1)
     ctx.rule("C06.chunk", "T6: chunk size >= 1", floor=1)
     ctx.rule("C06.nonedefault", "T5: optional arguments are defaulted only when None", floor=3)
     ctx.rule("C06.formulation", "oracle evaluation: one row per combination, values of the model with exactly the implied reactions at zero", floor=6)
+    n0 = len(ctx.findings)
     try:
         delform.check_deletions(ctx, "C06.formulation")
     except AnalysisError as exc:
         ctx.defer(str(exc))
+    formulation_failed = len(ctx.findings) > n0 or bool(ctx.deferred)
     # the linear MOMA problem itself (shared with C09): the reported growth is only meaningful if it is posed as documented
     ctx.rule("C09.moma", "formulation: linear MOMA poses the documented problem (shared with C09)", floor=6)
     try:
@@ -189,7 +191,8 @@ def run(ctx) -> None:
     ctx.rule("C07.eval", "truth-table evaluation of the rule evaluator (shared with C07)", floor=8)
     c07.check_guard(ctx)
     c07.check_eval(ctx)
-    ctx.guard(check_tasks, ctx)
+    # the reading of how the task set is spelled explains; the rows themselves are decided by the evaluated formulation
+    ctx.explain(formulation_failed, check_tasks, ctx)
     check_scope(ctx)
     ctx.guard(check_status, ctx)
     fa.check_keyed(ctx, "C06.keyed", [("cobra.flux_analysis.deletion", "_multi_deletion")])
